@@ -120,6 +120,7 @@ const (
 	c04Mut     // read key k, derive a Buffer from the value by instruction V, mutate it in place, then NotifyVal k
 	c04CallMut // read key k, pass the value to contract C which derives a Buffer from it and mutates it; then notify what the caller still holds
 	c04MutArg  // callee side of callmut (built at run time)
+	c04Dyn     // System.Runtime.LoadScript of a script compiled from Body, with requested flags Flags
 )
 
 // ways to derive a Buffer from a ByteString (mut / callmut: field V)
@@ -137,7 +138,7 @@ const (
 	c04NHow
 )
 
-var c04OpNames = []string{"skip", "put", "del", "notify", "notifyval", "notifyfee", "move", "setfee", "seq", "call", "try", "throw", "abort", "moveneo", "vote", "callt", "update", "mut", "callmut", "mutarg"}
+var c04OpNames = []string{"skip", "put", "del", "notify", "notifyval", "notifyfee", "move", "setfee", "seq", "call", "try", "throw", "abort", "moveneo", "vote", "callt", "update", "mut", "callmut", "mutarg", "dyn"}
 
 // c04Node is one node of a call tree. JSON form is what replay files carry.
 //
@@ -239,6 +240,8 @@ func (n *c04Node) coq() string {
 		return fmt.Sprintf("(Call %d %d %s)", n.C, n.Flags, n.Body.coq())
 	case c04Update, c04MutArg:
 		return "Abort"
+	case c04Dyn: // a frame without a layer whose flags are caller & requested & ReadOnly: the model's call with read-only flags
+		return fmt.Sprintf("(Call 0 %d %s)", n.Flags&5, n.Body.coq())
 	case c04Mut: // values are immutable in the model: reading and scribbling on a copy is NotifyVal
 		return fmt.Sprintf("(NotifyVal %d)", n.K)
 	case c04CallMut:
@@ -316,6 +319,10 @@ func (e *c04Env) pushItem(a *c04Asm, n *c04Node) {
 			e.pushItem(a, n.Ops[i])
 		}
 		cnt = 1 + len(n.Ops)
+	case c04Dyn:
+		a.pushInt(int64(n.Flags))
+		a.pushBytes(e.entryScript(n.Body))
+		cnt = 3
 	case c04Mut:
 		a.pushInt(int64(n.V))
 		a.pushBytes(c04Key(n.K))
@@ -383,6 +390,8 @@ func (n *c04Node) entryOK() bool {
 		return true
 	}
 	switch n.tag() {
+	case c04Dyn:
+		return n.Body.entryOK()
 	case c04Call:
 		return !n.T // an entry script has no method tokens
 	case c04Skip, c04Throw, c04Abort:
@@ -413,6 +422,12 @@ func (e *c04Env) compileEntry(a *c04Asm, n *c04Node) {
 		a.op(opcode.THROW)
 	case c04Abort:
 		c04AbortCode(a, n.V)
+	case c04Dyn:
+		a.op(opcode.NEWARRAY0)
+		a.pushInt(int64(n.Flags))
+		a.pushBytes(e.entryScript(n.Body))
+		a.syscall(interopnames.SystemRuntimeLoadScript)
+		a.op(opcode.CLEAR)
 	case c04Call:
 		e.pushItem(a, n.Body)
 		a.pushInt(1)
@@ -775,6 +790,15 @@ func c04Interpreter(gas, policy, neo, mgmt util.Uint160) (script []byte, runOff,
 		a.label(prefix + "_nomut")
 		a.op(opcode.DROP)
 	}
+
+	a.label("op_dyn") // [dyn, script, flags]; LoadScript itself needs AllowCall only: generated bodies begin with a call, which
+	// needs ReadStates too (as the model's call frame does)
+	a.op(opcode.DROP)
+	a.op(opcode.NEWARRAY0)
+	item(2)
+	item(1)
+	a.syscall(interopnames.SystemRuntimeLoadScript)
+	a.jmp(opcode.JMPL, "ret")
 
 	a.label("op_mut") // [mut, k, how]
 	a.op(opcode.DROP)
